@@ -487,7 +487,7 @@ func TestC02(t *testing.T) {
 	defer r.Flush()
 	if r.Lane == 3%r.Lanes {
 		// the engine behind a types.HttpServer listening itself: HTTP/1.1, HTTP/2 (TLS) and HTTP/3 (QUIC) on loopback
-		defer netLanes(r, r.N(4, 64))
+		netLanes(r, r.N(4, 64))
 	}
 	r.Rule("PRNG payload lists (1-4 carriers of 1-12 packets: text/binary/empty/unicode/escape-heavy messages, noop, heartbeat, close) submitted by a reference-codec client as v4 payloads, v3 string / binary / base64 payloads, JSONP form bodies, WebSocket frames (v3/v4, base64 or binary) and WebTransport frames; oracle: the server's 'message' and 'data' events equal the submitted message packets up to the first close packet (order, bytes, kind, once), every POST answered 200 ok, nothing delivered after close; distinct = form + packet-shape signature")
 	r.Assume("revision-4 polling text never contains U+001E (no escaping exists); a JSONP payload never contains a backslash immediately followed by a real newline (the reference client's escaping cannot represent it)")
